@@ -431,8 +431,10 @@ TwFams == { [name |-> "u64_u64",   rsz |-> 16, ral |-> 8,  off |-> 8,  tsz |-> 8
             [name |-> "b24_u8",    rsz |-> 25, ral |-> 1,  off |-> 1,  tsz |-> 24, tal |-> 1],
             [name |-> "a32_u8",    rsz |-> 64, ral |-> 32, off |-> 32, tsz |-> 32, tal |-> 32] }
 
-AllocTryWith(tw, isOk, isMut, inner, fail) ==
+\* pan: the closure panics (unwinds): the slot allocated by alloc_try_with stays behind; alloc_try_with_mut only prepared it
+AllocTryWithP(tw, isOk, isMut, inner, fail, pan) ==
     /\ Active /\ Free /\ Cardinality(LiveIds) + 1 < MaxBlocks
+    /\ pan => (~inner /\ ~fail)
     /\ isMut => (~inner /\ NoVecsHere)                      \* with &mut access the closure cannot reach the allocator
     /\ fail => (CanFail /\ NeedsBase(chunks, cur, tw.rsz, tw.ral, ma))
     /\ LET cp == Checkpoint
@@ -449,29 +451,32 @@ AllocTryWith(tw, isOk, isMut, inner, fail) ==
            taddr == r.addr + tw.off
            npos == IF cfg.up THEN UpAlign(taddr + tw.tsz, ma) ELSE DownAlign(taddr, ma)
            fin == IF ~r.ok THEN [chunks |-> r.chunks, cur |-> r.cur]
+                  ELSE IF pan THEN [chunks |-> chsI, cur |-> curI]
                   ELSE IF isOk THEN (IF canShrink THEN [chunks |-> [chsI EXCEPT ![curI].pos = npos], cur |-> curI] ELSE [chunks |-> chsI, cur |-> curI])
                   ELSE (IF canShrink THEN ResetToCp(chsI, cp) ELSE [chunks |-> chsI, cur |-> curI])
            tid == nextId
-           iid == IF r.ok /\ isOk THEN nextId + 1 ELSE nextId
-           newblocks == (IF r.ok /\ isOk THEN {tid} ELSE {}) \cup (IF inner /\ r.ok /\ ri.ok THEN {iid} ELSE {})
+           iid == IF r.ok /\ isOk /\ ~pan THEN nextId + 1 ELSE nextId
+           newblocks == (IF r.ok /\ isOk /\ ~pan THEN {tid} ELSE {}) \cup (IF inner /\ r.ok /\ ri.ok THEN {iid} ELSE {})
        IN /\ ~(inner /\ r.ok /\ ~ri.ok)
           /\ chunks' = fin.chunks /\ cur' = fin.cur /\ base' = baseI
           /\ blocks' = [i \in LiveIds \cup newblocks |->
                           IF i \in LiveIds THEN blocks[i]
-                          ELSE IF i = tid /\ r.ok /\ isOk THEN [addr |-> taddr, sz |-> tw.tsz, al |-> tw.tal]
+                          ELSE IF i = tid /\ r.ok /\ isOk /\ ~pan THEN [addr |-> taddr, sz |-> tw.tsz, al |-> tw.tal]
                           ELSE [addr |-> ri.addr, sz |-> 8, al |-> 8]]
           /\ nextId' = nextId + Cardinality(newblocks)
-          /\ order' = order \o (IF r.ok /\ isOk THEN <<tid>> ELSE <<>>) \o (IF inner /\ r.ok /\ ri.ok THEN <<iid>> ELSE <<>>)
+          /\ order' = order \o (IF r.ok /\ isOk /\ ~pan THEN <<tid>> ELSE <<>>) \o (IF inner /\ r.ok /\ ri.ok THEN <<iid>> ELSE <<>>)
           /\ parts' = parts
           /\ last' = 0
           /\ fails' = IF fail THEN fails + 1 ELSE fails
           /\ UNCHANGED <<cfg, ma, frames, cps, dropped>>
-          /\ Step("try_with", [fam |-> tw.name, ok |-> isOk, mut |-> isMut, inner |-> inner, fail |-> fail,
-                               tid |-> IF r.ok /\ isOk THEN tid ELSE 0, iid |-> IF inner /\ r.ok /\ ri.ok THEN iid ELSE 0,
+          /\ Step("try_with", [fam |-> tw.name, ok |-> isOk, mut |-> isMut, inner |-> inner, fail |-> fail, pan |-> pan,
+                               tid |-> IF r.ok /\ isOk /\ ~pan THEN tid ELSE 0, iid |-> IF inner /\ r.ok /\ ri.ok THEN iid ELSE 0,
                                tsz |-> tw.tsz, tal |-> tw.tal],
-                  Exp(IF ~r.ok THEN "err" ELSE IF isOk THEN "ok" ELSE "errval", IF r.ok /\ isOk THEN taddr ELSE 0,
-                      [rewinds |-> r.ok /\ ~isOk /\ canShrink, iaddr |-> IF inner /\ r.ok /\ ri.ok THEN ri.addr ELSE 0,
+                  Exp(IF ~r.ok THEN "err" ELSE IF pan THEN "panic" ELSE IF isOk THEN "ok" ELSE "errval", IF r.ok /\ isOk /\ ~pan THEN taddr ELSE 0,
+                      [rewinds |-> r.ok /\ ~isOk /\ ~pan /\ canShrink, iaddr |-> IF inner /\ r.ok /\ ri.ok THEN ri.addr ELSE 0,
                        newchunk |-> Len(fin.chunks) > Len(chunks)]))
+
+AllocTryWith(tw, isOk, isMut, inner, fail) == AllocTryWithP(tw, isOk, isMut, inner, fail, FALSE)
 
 \* ---- deallocate ---------------------------------------------------------------------------------
 Dealloc(id, wrap) ==
@@ -918,16 +923,18 @@ PrepDrop(how) ==
 \* min_non_zero_cap), or exact), shrink_slice (shrink_to_fit, into_boxed_slice) and deallocate (drop).
 \* Several vectors and plain allocations interleave freely; a vector that is not the most recent allocation relocates
 \* when it grows.
-VBlock(addr, cap, e, len, wrap) == [addr |-> addr, sz |-> cap * e.sz, al |-> e.al, esz |-> e.sz, vlen |-> len, wrap |-> wrap]
+\* fixed = FixedBumpVec: allocated once, never grows (a request beyond the capacity is refused), holds no allocator
+VBlock(addr, cap, e, len, wrap, fixed) == [addr |-> addr, sz |-> cap * e.sz, al |-> e.al, esz |-> e.sz, vlen |-> len, wrap |-> wrap, fixed |-> fixed]
 VCap(b) == b.sz \div b.esz
 
-VecNew(e, c0, wrap, fail) ==
+VecNewG(e, c0, wrap, fail, fixed) ==
     /\ Active /\ Free /\ Cardinality(LiveIds) < MaxBlocks /\ e.sz > 0 /\ e.sz % e.al = 0
+    /\ fixed => (c0 >= 1 /\ wrap = "none")
     /\ fail => (CanFail /\ c0 > 0 /\ NeedsBase(chunks, cur, c0 * e.sz, e.al, ma))
     /\ LET r == IF c0 = 0 THEN [ok |-> TRUE, chunks |-> chunks, cur |-> cur, base |-> base, addr |-> 0]
                 ELSE DoAlloc(chunks, cur, base, c0 * e.sz, e.al, ma, fail)
        IN /\ chunks' = r.chunks /\ cur' = r.cur /\ base' = r.base
-          /\ blocks' = IF r.ok THEN [i \in LiveIds \cup {nextId} |-> IF i = nextId THEN VBlock(r.addr, c0, e, 0, wrap) ELSE blocks[i]]
+          /\ blocks' = IF r.ok THEN [i \in LiveIds \cup {nextId} |-> IF i = nextId THEN VBlock(r.addr, c0, e, 0, wrap, fixed) ELSE blocks[i]]
                        ELSE blocks
           /\ nextId' = IF r.ok THEN nextId + 1 ELSE nextId
           /\ last' = IF c0 = 0 THEN last ELSE IF r.ok THEN nextId ELSE 0
@@ -935,8 +942,10 @@ VecNew(e, c0, wrap, fail) ==
           /\ parts' = parts
           /\ fails' = IF fail THEN fails + 1 ELSE fails
           /\ UNCHANGED <<cfg, ma, frames, cps, dropped>>
-          /\ Step("vec_new", [id |-> IF r.ok THEN nextId ELSE 0, esz |-> e.sz, eal |-> e.al, cap |-> c0, wrap |-> wrap, fail |-> fail],
+          /\ Step("vec_new", [id |-> IF r.ok THEN nextId ELSE 0, esz |-> e.sz, eal |-> e.al, cap |-> c0, wrap |-> wrap, fail |-> fail, fixed |-> fixed],
                   Exp(IF r.ok THEN "ok" ELSE "err", r.addr, [newchunk |-> Len(r.chunks) > Len(chunks), len |-> 0, cap |-> c0]))
+
+VecNew(e, c0, wrap, fail) == VecNewG(e, c0, wrap, fail, FALSE)
 
 \* how: "push" (k = 1), "extend_copy", "extend_clone", "within_copy", "within_clone" (the first k elements are appended
 \* again), "resize", "reserve" (length unchanged), "reserve_exact" (length unchanged, exact growth)
@@ -954,17 +963,19 @@ VecExtend(id, k, how, fail) ==
           /\ fail => /\ CanFail /\ grows
                      /\ IF b.sz = 0 THEN NeedsBase(chunks, cur, ncap * b.esz, b.al, ma)
                                     ELSE GrowNeedsBase(chunks, cur, b.addr, b.sz, ncap * b.esz, b.al, ma)
+          /\ b.fixed => (~fail /\ how # "reserve_exact")
           /\ LET r == IF ~grows THEN [ok |-> TRUE, chunks |-> chunks, cur |-> cur, base |-> base, addr |-> b.addr]
+                      ELSE IF b.fixed THEN [ok |-> FALSE, chunks |-> chunks, cur |-> cur, base |-> base, addr |-> b.addr]   \* full
                       ELSE IF b.sz = 0 THEN DoAlloc(chunks, cur, base, ncap * b.esz, b.al, ma, fail)    \* no buffer yet: allocate_slice
                       ELSE DoGrow(chunks, cur, base, b.addr, b.sz, ncap * b.esz, b.al, ma, fail)
                  nlen == IF r.ok /\ ~keepsLen THEN b.vlen + k ELSE b.vlen
-             IN /\ Assert((grows /\ b.sz > 0 /\ last = id /\ cfg.up /\ b.sz % ma = 0 /\ b.addr % ma = 0 /\ ncap * b.esz <= chunks[cur].hi - b.addr)
+             IN /\ Assert((grows /\ ~b.fixed /\ b.sz > 0 /\ last = id /\ cfg.up /\ b.sz % ma = 0 /\ b.addr % ma = 0 /\ ncap * b.esz <= chunks[cur].hi - b.addr)
                               => (r.ok /\ r.addr = b.addr),
                           "C13: a vector that is the most recent allocation did not grow in place")
                 /\ chunks' = r.chunks /\ cur' = r.cur /\ base' = r.base
                 /\ blocks' = IF r.ok THEN [blocks EXCEPT ![id] = [b EXCEPT !.addr = r.addr, !.sz = IF grows THEN ncap * b.esz ELSE b.sz, !.vlen = nlen]]
                              ELSE blocks
-                /\ last' = IF ~grows THEN last ELSE IF r.ok THEN id ELSE 0
+                /\ last' = IF ~grows \/ b.fixed THEN last ELSE IF r.ok THEN id ELSE 0
                 /\ order' = IF grows /\ r.ok THEN Append(Without(order, id), id) ELSE order
                 /\ parts' = parts
                 /\ fails' = IF fail THEN fails + 1 ELSE fails
@@ -972,21 +983,40 @@ VecExtend(id, k, how, fail) ==
                 /\ cps' = IF grows /\ r.ok THEN StripCps(cps, id) ELSE cps
                 /\ UNCHANGED <<cfg, ma, nextId, dropped>>
                 /\ Step("vec_extend", [id |-> id, k |-> k, how |-> how, fail |-> fail, grows |-> grows, ncap |-> ncap,
-                                       osz |-> b.sz, esz |-> b.esz, eal |-> b.al, wrap |-> b.wrap],
+                                       osz |-> b.sz, esz |-> b.esz, eal |-> b.al, wrap |-> b.wrap, fixed |-> b.fixed],
                         Exp(IF r.ok THEN "ok" ELSE "err", IF r.ok THEN r.addr ELSE b.addr,
                             [waslast |-> last = id, wastop |-> Top(order) = id, inplace |-> grows /\ r.ok /\ r.addr = b.addr,
                              newchunk |-> Len(r.chunks) > Len(chunks), len |-> nlen,
                              cap |-> IF grows /\ r.ok THEN ncap ELSE cap]))
 
+\* a reserve that cannot be served: kind "max" = additional so large that len + additional overflows (refused before anything
+\* is touched, fixed and growable vectors alike), kind "layout" = the largest valid array layout (growable vectors: the grow
+\* request walks the later chunks and then fails to compute a chunk size: capacity overflow, current chunk restored)
+VecReserveHuge(id, kind) ==
+    /\ Active /\ Free /\ OwnVec(id) /\ kind \in {"max", "layout"}
+    /\ LET b == blocks[id]
+           r == IF kind = "max" THEN [ok |-> FALSE, chunks |-> chunks, cur |-> cur]
+                ELSE IF b.sz = 0 THEN DoAlloc(chunks, cur, base, HugeSz, b.al, ma, TRUE)
+                ELSE DoGrow(chunks, cur, base, b.addr, b.sz, HugeSz, b.al, ma, TRUE)
+       IN /\ kind = "layout" => ~b.fixed
+          /\ ~r.ok
+          /\ chunks' = r.chunks /\ cur' = r.cur
+          /\ last' = IF kind = "max" THEN last ELSE 0
+          /\ UNCHANGED <<cfg, base, ma, frames, blocks, cps, nextId, order, parts, fails, dropped>>
+          /\ Step("vec_extend", [id |-> id, k |-> 0, how |-> "reserve", fail |-> FALSE, grows |-> TRUE, ncap |-> 0, huge |-> kind,
+                                 osz |-> b.sz, esz |-> b.esz, eal |-> b.al, wrap |-> b.wrap, fixed |-> b.fixed],
+                  Exp("err", b.addr, [waslast |-> last = id, wastop |-> Top(order) = id, inplace |-> FALSE, newchunk |-> FALSE,
+                                      len |-> b.vlen, cap |-> VCap(b)]))
+
 \* the shrink of shrink_to_fit / into_boxed_slice: shrink_slice(ptr, cap, len) -- nothing unless the handle shrinks
 \* and the buffer is the most recent allocation; WithoutShrink never shrinks
-VecShrunk(b) == ~WS(b.wrap) /\ cfg.shrinks /\ VCap(b) > b.vlen /\ IsLast(chunks, cur, b.addr, b.sz)
+VecShrunk(b) == ~b.fixed /\ ~WS(b.wrap) /\ cfg.shrinks /\ VCap(b) > b.vlen /\ IsLast(chunks, cur, b.addr, b.sz)
 VecShrinkRes(b) ==
     IF VecShrunk(b) THEN DoShrink(chunks, cur, base, b.addr, b.sz, b.vlen * b.esz, b.al, ma, FALSE, FALSE)
     ELSE [ok |-> TRUE, chunks |-> chunks, cur |-> cur, base |-> base, addr |-> b.addr, rsz |-> b.sz]
 
 VecShrink(id) ==
-    /\ Active /\ Free /\ OwnVec(id)
+    /\ Active /\ Free /\ OwnVec(id) /\ ~blocks[id].fixed
     /\ LET b == blocks[id]
            r == VecShrinkRes(b)
            sh == VecShrunk(b)
@@ -1013,18 +1043,18 @@ VecTruncate(id, n) ==
 VecDrop(id) ==
     /\ Active /\ Free /\ OwnVec(id)
     /\ LET b == blocks[id]
-           reclaims == b.sz > 0 /\ ~WD(b.wrap) /\ cfg.dealloc /\ IsLast(chunks, cur, b.addr, b.sz)
-       IN /\ Assert((b.sz > 0 /\ last = id /\ b.sz % ma = 0 /\ b.addr % ma = 0 /\ cfg.dealloc /\ ~WD(b.wrap)) => reclaims,
+           reclaims == b.sz > 0 /\ ~b.fixed /\ ~WD(b.wrap) /\ cfg.dealloc /\ IsLast(chunks, cur, b.addr, b.sz)
+       IN /\ Assert((b.sz > 0 /\ ~b.fixed /\ last = id /\ b.sz % ma = 0 /\ b.addr % ma = 0 /\ cfg.dealloc /\ ~WD(b.wrap)) => reclaims,
                     "C13: dropping the vector that is the most recent allocation does not reclaim its buffer")
           /\ Assert(reclaims => Top(order) = id, "C13: dropping a vector that is not the most recent live allocation reclaimed memory")
-          /\ chunks' = IF b.sz > 0 THEN DoDealloc(chunks, cur, b.addr, b.sz, ma, WD(b.wrap)) ELSE chunks
+          /\ chunks' = IF b.sz > 0 /\ ~b.fixed THEN DoDealloc(chunks, cur, b.addr, b.sz, ma, WD(b.wrap)) ELSE chunks
           /\ blocks' = Restrict(blocks, LiveIds \ {id})
-          /\ last' = IF b.sz > 0 THEN 0 ELSE last
+          /\ last' = IF b.sz > 0 /\ ~b.fixed THEN 0 ELSE last
           /\ order' = Without(order, id)
           /\ parts' = parts
           /\ UNCHANGED <<cfg, base, cur, ma, frames, cps, nextId, fails, dropped>>
-          /\ Step("vec_drop", [id |-> id, wrap |-> b.wrap, sz |-> b.sz],
-                  Exp("ok", 0, [waslast |-> last = id, wastop |-> Top(order) = id, reclaim |-> reclaims, optout |-> WD(b.wrap) \/ ~cfg.dealloc,
+          /\ Step("vec_drop", [id |-> id, wrap |-> b.wrap, sz |-> b.sz, fixed |-> b.fixed],
+                  Exp("ok", 0, [waslast |-> last = id, wastop |-> Top(order) = id, reclaim |-> reclaims, optout |-> WD(b.wrap) \/ ~cfg.dealloc \/ b.fixed,
                                 hadbuf |-> b.sz > 0]))
 
 \* into_boxed_slice / into_slice: shrink_to_fit, then the first len elements are a plain allocation of the caller
@@ -1045,7 +1075,7 @@ VecInto(id) ==
           /\ UNCHANGED <<cfg, base, ma, nextId, parts, fails, dropped>>
           /\ Step("vec_into", [id |-> id, esz |-> b.esz, eal |-> b.al, wrap |-> b.wrap, osz |-> b.sz, bid |-> IF keeps THEN id ELSE 0],
                   Exp("ok", IF keeps THEN r.addr ELSE 0,
-                      [wastop |-> Top(order) = id, shrunk |-> sh, optout |-> WS(b.wrap) \/ ~cfg.shrinks, len |-> b.vlen, cap |-> 0]))
+                      [wastop |-> Top(order) = id, shrunk |-> sh, optout |-> WS(b.wrap) \/ ~cfg.shrinks \/ b.fixed, len |-> b.vlen, cap |-> 0]))
 
 \* ---- one-shot helpers built on growable collections: alloc_iter, alloc_fmt, alloc_cstr_fmt -----------------------------
 \* alloc_iter      = BumpVec::with_capacity_in(size_hint.0) ; push every element (amortised growth) ; into_boxed_slice
